@@ -17,7 +17,7 @@ ASSUMPTIONS = [
 ]
 COMPONENTS = {"real": ["compiler tail-call generation", "VM TAIL_CALL/APPLY1 frames", "sexp_ensure_stack/sexp_grow_stack", "green-thread stacks", "collector"],
               "stub": ["slice lengths", "collection schedule", "interrupt instant", "clock"]}
-BUDGET = {"quick": {"seconds": 60, "cases": 4000}, "thorough": {"seconds": 1200, "cases": 200000}}
+BUDGET = {"quick": {"seconds": 60, "cases": 4000, "min_cases": 150}, "thorough": {"seconds": 1200, "cases": 200000}}
 CONFIGS = {
     "tiny": {"variant": "tiny", "imports": ["(srfi 18)", "(scheme case-lambda)", "(srfi 95)", "(srfi 69)"], "timeout_ms": 120000},
     "sim": {"variant": "sim", "imports": ["(srfi 18)", "(scheme case-lambda)", "(srfi 95)", "(srfi 69)"], "timeout_ms": 120000},
